@@ -271,10 +271,8 @@ Definition doc_lit2 : text := [10; 32; 32; 32].
 Local Transparent xid_start xid_continue line_breaks py_space rst_ws.
 Lemma doc_shape : forall version t, deprecation_doc version t = doc_lit1 ++ version ++ doc_lit2 ++ t.
 Proof.
-  intros. unfold deprecation_doc, fmt, depr_doc. cbn [flat_map fst snd].
-  change (9 =? 9) with true. change (2 =? 9) with false. change (4 =? 9) with false. cbv iota.
-  change (2 =? 2) with true. change (4 =? 2) with false. change (4 =? 4) with true. cbv iota.
-  rewrite !app_nil_r. reflexivity.
+  intros. unfold deprecation_doc, fmt, depr_doc, doc_lit1, doc_lit2. simpl.
+  rewrite ?app_nil_r. rewrite <- ?app_assoc. simpl. rewrite ?app_nil_r. reflexivity.
 Qed.
 
 Lemma doc_lit1_nbk : nbk doc_lit1 = true.
